@@ -144,6 +144,7 @@ type txState struct {
 	overlay    map[string]map[string]*ovRow // lower(table) -> key -> row
 	locks      []string
 	savepoints []savepoint
+	readOnly   bool   // START TRANSACTION READ ONLY: writes fail with error 1792
 	xid        string // XA branch, "" for a local transaction
 	xaState    int
 }
